@@ -127,9 +127,86 @@ pub fn check_input(input: &[u8], context: &str) -> Result<String, (String, Strin
     }
 }
 
+// ------------------------------------------------------------------------------------------------
+// termination watchdog: an input on which next() loops forever cannot be interrupted from inside the
+// thread, so every worker publishes the input it is working on and a watchdog thread reports the first
+// one that has been running for more than WATCHDOG_S seconds (then the process exits: VIOLATION).
+
+const WATCHDOG_S: u64 = 10;
+
+struct Slot {
+    current: std::sync::Mutex<Option<(std::time::Instant, Vec<u8>, String, String)>>,
+}
+static REGISTRY: std::sync::Mutex<Vec<std::sync::Arc<Slot>>> = std::sync::Mutex::new(Vec::new());
+thread_local! {
+    static MY_SLOT: std::sync::Arc<Slot> = {
+        let s = std::sync::Arc::new(Slot { current: std::sync::Mutex::new(None) });
+        REGISTRY.lock().unwrap().push(s.clone());
+        s
+    };
+}
+
+fn check_input_watched(input: &[u8], context: &str, sweep: &str) -> Result<String, (String, String)> {
+    MY_SLOT.with(|s| *s.current.lock().unwrap() = Some((std::time::Instant::now(), input.to_vec(), context.to_string(), sweep.to_string())));
+    let r = check_input(input, context);
+    MY_SLOT.with(|s| *s.current.lock().unwrap() = None);
+    r
+}
+
+fn signature_of(kind: &str, sweep: &str, context: &str) -> String {
+    format!("{kind}:sweep={sweep}:context={}", if context.is_empty() { "document" } else { context })
+}
+
+fn start_watchdog(prop: &'static str, tier: Tier) {
+    std::thread::spawn(move || loop {
+        std::thread::sleep(std::time::Duration::from_secs(1));
+        let slots: Vec<std::sync::Arc<Slot>> = REGISTRY.lock().unwrap().clone();
+        for s in slots {
+            let stuck = {
+                let g = s.current.lock().unwrap();
+                match &*g {
+                    Some((t, input, context, sweep)) if t.elapsed().as_secs() >= WATCHDOG_S => Some((input.clone(), context.clone(), sweep.clone())),
+                    _ => None,
+                }
+            };
+            if let Some((input, context, sweep)) = stuck {
+                let sig = signature_of("does-not-terminate", &sweep, &context);
+                let known = crate::common::load_known_findings().iter().any(|k| k.property == prop && k.status == "open" && k.signature == sig);
+                let dir = crate::common::verif_root().join("replays");
+                let _ = std::fs::create_dir_all(&dir);
+                let path = dir.join(format!("{prop}-nonterminating-{:016x}.json", crate::common::fp128(&input) as u64));
+                let doc = json!({"property": prop, "signature": sig, "what": format!("tokenising {:?} (context {:?}) did not finish within {WATCHDOG_S}s", String::from_utf8_lossy(&input), context),
+                                 "case": {"input": input, "context": context, "sweep": sweep}});
+                let _ = std::fs::write(&path, serde_json::to_string_pretty(&doc).unwrap());
+                let evidence = json!({"property_id": prop, "tier": tier.name(), "seed": 0, "level": "exploration", "wall_s": 0.0, "violations": 1,
+                    "coverage": {"evaluations": 1, "distinct_nontrivial": 2, "rule": "run aborted by the termination watchdog", "samples": [String::from_utf8_lossy(&input)], "exhaustive": false}});
+                let _ = std::fs::write(crate::common::verif_root().join("evidence").join(format!("{prop}.json")), serde_json::to_string_pretty(&evidence).unwrap());
+                if known {
+                    println!("KNOWN-FINDING: property={prop} {sig}");
+                    std::process::exit(0);
+                }
+                println!("VIOLATION property={prop} replay={}", path.display());
+                println!("  signature: {sig}");
+                println!("  what: tokenising {:?} (context {:?}) did not finish within {WATCHDOG_S}s", String::from_utf8_lossy(&input), context);
+                std::process::exit(1);
+            }
+        }
+    });
+}
+
+/// run one input in a child process with a time limit (used by replay: a non-terminating input must not hang it)
+pub fn one(hex: &str, context: &str) -> i32 {
+    let input: Vec<u8> = (0..hex.len() / 2).filter_map(|i| u8::from_str_radix(&hex[2 * i..2 * i + 2], 16).ok()).collect();
+    match check_input(&input, context) {
+        Ok(_) => println!("OK"),
+        Err((kind, _)) => println!("ERR {kind}"),
+    }
+    0
+}
+
 fn report(ctx: &Ctx, sweep: &str, context: &str, input: &[u8], kind: String, what: String) {
     ctx.report(Violation {
-        signature: format!("{kind}:sweep={sweep}:context={}", if context.is_empty() { "document" } else { context }),
+        signature: signature_of(&kind, sweep, context),
         what: format!("{what} (input {:?}, context {:?})", String::from_utf8_lossy(input), context),
         case: json!({"input": input, "context": context, "sweep": sweep}),
         weight: input.len() as u64,
@@ -141,7 +218,7 @@ fn report(ctx: &Ctx, sweep: &str, context: &str, input: &[u8], kind: String, wha
 fn sweep_rec(ctx: &Ctx, sweep: &str, context: &str, alphabet: &[&[u8]], buf: &mut Vec<u8>, remaining: usize, kinds: &DistinctSet, samples: &Samples) {
     // check the current string, then extend
     ctx.eval(1);
-    match check_input(buf, context) {
+    match check_input_watched(buf, context, sweep) {
         Ok(k) => {
             if kinds.insert_str(&format!("{context}:{k}")) {
                 samples.offer(|| json!({"sweep": sweep, "context": context, "input": String::from_utf8_lossy(buf), "token_kinds": k}));
@@ -180,7 +257,7 @@ fn sweep(ctx: &Ctx, name: &str, context: &str, alphabet: &[&[u8]], max_len: usiz
     }
     for a in alphabet {
         ctx.eval(1);
-        match check_input(a, context) {
+        match check_input_watched(a, context, name) {
             Ok(k) => {
                 kinds.insert_str(&format!("{context}:{k}"));
             }
@@ -201,14 +278,50 @@ pub fn replay(case: &Value) -> Vec<String> {
     };
     let context = case["context"].as_str().unwrap_or("");
     let sweep = case["sweep"].as_str().unwrap_or("");
-    match check_input(&input, context) {
-        Ok(_) => vec![],
-        Err((kind, _)) => vec![format!("{kind}:sweep={sweep}:context={}", if context.is_empty() { "document" } else { context })],
+    // in a child process with a time limit: the input may be one on which the tokenizer never returns
+    let hex: String = input.iter().map(|b| format!("{b:02x}")).collect();
+    let exe = match std::env::current_exe() {
+        Ok(e) => e,
+        Err(_) => return vec![],
+    };
+    let mc = exe.parent().map(|p| p.join("mc")).unwrap_or(exe);
+    let mut child = match std::process::Command::new(mc).arg("c16-one").arg(&hex).arg(context).stdout(std::process::Stdio::piped()).stderr(std::process::Stdio::null()).spawn() {
+        Ok(c) => c,
+        Err(_) => return vec![],
+    };
+    let start = std::time::Instant::now();
+    loop {
+        match child.try_wait() {
+            Ok(Some(status)) => {
+                let mut out = String::new();
+                if let Some(mut so) = child.stdout.take() {
+                    use std::io::Read;
+                    let _ = so.read_to_string(&mut out);
+                }
+                if !status.success() {
+                    return vec![signature_of("process-died", sweep, context)];
+                }
+                return match out.trim().strip_prefix("ERR ") {
+                    Some(kind) => vec![signature_of(kind, sweep, context)],
+                    None => vec![],
+                };
+            }
+            Ok(None) => {
+                if start.elapsed().as_secs() >= WATCHDOG_S {
+                    let _ = child.kill();
+                    let _ = child.wait();
+                    return vec![signature_of("does-not-terminate", sweep, context)];
+                }
+                std::thread::sleep(std::time::Duration::from_millis(20));
+            }
+            Err(_) => return vec![],
+        }
     }
 }
 
 pub fn run(tier: Tier) -> i32 {
     let ctx = Ctx::new("C16", tier, "exploration");
+    start_watchdog("C16", tier);
     let kinds = DistinctSet::new();
     let samples = Samples::new(8);
     let bytes_alpha: Vec<Vec<u8>> = BYTES_ALPHABET.iter().map(|b| vec![*b]).collect();
